@@ -136,6 +136,7 @@ def runTopCb (v : Val) : TopCb → M Unit
 def deliver (rec : Rec) (w : Waiter) (v : Val) : M Unit := do
   match w with
   | .none => pure ()
+  | .callback n => enqueue (.callback n)
   | .top tid =>
     let s ← getS
     match s.tops.find? (·.tid = tid) with
